@@ -254,6 +254,113 @@ fn scenario(kind: usize, behs: &[Beh], order: usize, track: bool, sync: bool) ->
     }
 }
 
+/// A put that is already in its store phase (it started from cached closest nodes, its writes are
+/// on the wire, the acknowledgements take 300 ms) while another lookup of the SAME target starts
+/// and ends first - with token-bearing answers, token-less answers, errors only, or silence.
+/// Whatever that lookup finds, the put's result is decided by its own acknowledgements.
+fn concurrent_lookup(kind: usize, lookup_end: usize, second: usize, out: &mut Partial) {
+    const ENDS: [&str; 4] = ["tokens", "no-tokens", "errors-only", "silent"];
+    const SECOND: [&str; 3] = ["get-same-kind", "find_node", "get_closest_nodes"];
+    let mut w = World::new(Chooser::default_run());
+    let (req, target) = request(kind);
+    let ids = crate::epnet::ranked_ids(&target, 3);
+    let mut net = EpNet::new(&mut w, &ids);
+    let eps = net.addrs();
+    let a = w.add_node(NodeCfg::new([9, 9, 9, 9], 7000).bootstrap(&eps[..1]).id([0x21; 20]));
+    let mut phase2 = false;
+    let mut acks_sent = 0usize;
+    let pump = |w: &mut World, net: &mut EpNet, ev: &Event, phase2: bool, acks_sent: &mut usize| {
+        if let Event::EndpointRecv { ep, dgram } = ev {
+            let i = net.index_of(*ep).expect("ep");
+            let Some(q) = krpc::Krpc::parse(&dgram.bytes) else { return };
+            if !q.is_query() {
+                return;
+            }
+            let is_put = matches!(q.q.as_deref(), Some("put") | Some("announce_peer") | Some("announce_signed_peer"));
+            let is_lookup_of_target = !is_put && q.query_target() == Some(target);
+            if phase2 && is_lookup_of_target {
+                match lookup_end {
+                    0 => {}
+                    1 => net.eps[i].issue_token = false,
+                    2 => {
+                        let from = net.eps[i].addr;
+                        w.send_raw(from, dgram.from, krpc::error(&q.t, 202, "server error"));
+                        return;
+                    }
+                    _ => return,
+                }
+            }
+            let reply = net.honest_reply(i, &q, dgram.from, w.now);
+            net.eps[i].issue_token = true;
+            if let Some(bytes) = reply {
+                let from = net.eps[i].addr;
+                if is_put {
+                    *acks_sent += 1;
+                }
+                w.send_raw_with_latency(from, dgram.from, bytes, if is_put { 300 * MS } else { DEFAULT_LATENCY });
+            }
+        }
+    };
+    let h = w.now + 3 * SEC;
+    w.run_until(h, |w, ev| {
+        pump(w, &mut net, ev, phase2, &mut acks_sent);
+        false
+    });
+    // a first lookup of the target leaves its token-bearing responders in the cache
+    let warm = match kind {
+        0 | 1 => w.call_get_closest_nodes(a, target.into()),
+        2 => w.call_get_peers(a, target.into()),
+        _ => w.call_get_signed_peers(a, target.into()),
+    };
+    let h = w.now + 30 * SEC;
+    w.run_until(h, |w, ev| {
+        pump(w, &mut net, ev, phase2, &mut acks_sent);
+        w.result(warm).is_some()
+    });
+    phase2 = true;
+    let put = w.call_put_raw(a, req, None);
+    // the put is handled first (its writes go out), then the second lookup is queued
+    w.run_for(MS);
+    let get = match second {
+        0 => match kind {
+            0 => w.call_get_immutable(a, target.into()),
+            1 => w.call_get_mutable(a, krpc::signing_key(8).verifying_key().to_bytes(), None, None),
+            2 => w.call_get_peers(a, target.into()),
+            _ => w.call_get_signed_peers(a, target.into()),
+        },
+        1 => w.call_find_node(a, target.into()),
+        _ => w.call_get_closest_nodes(a, target.into()),
+    };
+    let h = w.now + 60 * SEC;
+    w.run_until(h, |w, ev| {
+        pump(w, &mut net, ev, phase2, &mut acks_sent);
+        w.result(put).is_some() && w.result(get).is_some()
+    });
+    out.add("executions", 1);
+    out.add("concurrent_lookup_scenarios", 1);
+    out.add("transitions", w.steps);
+    let replay = json!({"part": "concurrent-lookup", "kind": kind, "lookup_end": lookup_end, "second": second});
+    let ctx = format!("{} put in its store phase (3 storers acknowledge after 300 ms) while a {} of the same target starts and ends with {}", KINDS[kind], SECOND[second], ENDS[lookup_end]);
+    let puts_received: usize = net.eps.iter().map(|e| e.puts.len()).sum();
+    if puts_received > 0 {
+        out.add("concurrent_lookup_put_was_in_flight", 1);
+    }
+    match w.result(put) {
+        Some(CallResult::Put(Ok(_))) => out.add("ok_results", 1),
+        Some(CallResult::Put(Err(e))) if puts_received > 0 && acks_sent > 0 => out.violation(
+            format!("concurrent-lookup/error-despite-acks/{}/{}/{}", KINDS[kind], SECOND[second], ENDS[lookup_end]),
+            format!("{ctx}: {acks_sent} acknowledgements were delivered in time but the put reports {e:?}"),
+            replay.clone(),
+        ),
+        Some(CallResult::Put(Err(_))) => out.add("non_instances_put_not_sent", 1),
+        Some(other) => out.violation(format!("concurrent-lookup/unexpected/{}", KINDS[kind]), format!("{ctx}: {other:?}"), replay.clone()),
+        None => out.add("non_instances_pending", 1),
+    }
+    if w.any_actor_panicked().is_some() {
+        out.violation(format!("actor-died/concurrent-lookup/{}", KINDS[kind]), ctx, replay);
+    }
+}
+
 fn beh_name(b: &Beh) -> String {
     match b {
         Beh::NoToken => "no-token".into(),
@@ -611,6 +718,17 @@ fn run(tier: Tier, shard: usize, nshards: usize, _seed: u64) -> Partial {
             overlap(pair, Some(at), &mut out);
         }
     }
+    // ---- a put in its store phase and another lookup of the same target
+    for kind in 0..4 {
+        for lookup_end in 0..4 {
+            for second in 0..3 {
+                idx += 1;
+                if idx % nshards == shard {
+                    concurrent_lookup(kind, lookup_end, second, &mut out);
+                }
+            }
+        }
+    }
     out.witness("a put returned Ok", out.count("ok_results") > 0);
     out.witness("a put returned an error", out.count("err_results") > 0);
     out.sample(json!({"kind": "mutable", "endpoints": ["ack", "e301", "e301"], "arrival_order": 2, "oracle": "Ok or (majority 301 => CasFailed)"}));
@@ -635,6 +753,9 @@ fn replay(v: &Value) -> Result<Option<Violation>, String> {
         extra_mix(v.get("kind").and_then(|x| x.as_u64()).ok_or("kind")? as usize, &mut out);
     } else if v.get("part").and_then(|p| p.as_str()) == Some("overlap") {
         overlap(v.get("pair").and_then(|x| x.as_u64()).ok_or("pair")? as usize, Some(v.get("at_event").and_then(|x| x.as_u64()).ok_or("at_event")? as u32), &mut out);
+    } else if v.get("part").and_then(|p| p.as_str()) == Some("concurrent-lookup") {
+        let g = |k: &str| v.get(k).and_then(|x| x.as_u64()).map(|x| x as usize);
+        concurrent_lookup(g("kind").ok_or("kind")?, g("lookup_end").ok_or("lookup_end")?, g("second").ok_or("second")?, &mut out);
     } else if v.get("part").and_then(|p| p.as_str()) == Some("big") {
         big(v.get("total").and_then(|x| x.as_u64()).ok_or("total")? as usize, v.get("pattern").and_then(|x| x.as_u64()).ok_or("pattern")? as usize, &mut out);
     } else {
